@@ -42,16 +42,23 @@ NOTE_FIELDS = ('pitch', 'velocity', 'start_time', 'end_time', 'instrument',
                'part', 'voice')
 
 
-def key_eq(c, a, b):
-  """Equality of two equally long tuples of scalars."""
-  return c.And([c.eq(x, y) for x, y in zip(a, b)] or [True])
+def key_eq(c, a, b, approx=(), tol=1e-9):
+  """Equality of two equally long tuples of scalars; the components listed in
+  `approx` are compared up to the relative tolerance `tol`."""
+  return c.And([(c.approx(x, y, tol) if i in approx else c.eq(x, y))
+                for i, (x, y) in enumerate(zip(a, b))] or [True])
 
 
-def multiset_eq(c, got, exp):
+def multiset_eq(c, got, exp, approx=(), tol=1e-9):
   """got: list of key tuples; exp: list of (cond, key tuple).
 
   True iff the multiset `got` equals the multiset {key | cond}.
   """
+  if approx:
+    def key_eq(c, a, b, _k=globals()['key_eq']):  # pylint: disable=redefined-outer-name
+      return _k(c, a, b, approx, tol)
+  else:
+    key_eq = globals()['key_eq']
   conds = [c.eq(len(got), c.Count([cd for cd, _ in exp]))]
   for g in got:
     conds.append(c.Or([c.And(cd, key_eq(c, g, k)) for cd, k in exp] or [False]))
